@@ -159,6 +159,7 @@ def patched(np_facade=None, extra_globals=None, module_prefix='numqi'):
     {module_name: {global_name: value}}); undo on exit."""
     np_facade = np_facade or make_np_facade()
     saved = []
+    clear_caches(module_prefix)
     try:
         for name, mod in list(sys.modules.items()):
             if mod is None or not (name == module_prefix or name.startswith(module_prefix + '.')):
@@ -181,6 +182,21 @@ def patched(np_facade=None, extra_globals=None, module_prefix='numqi'):
                 d.pop(k, None)
             else:
                 d[k] = v
+        clear_caches(module_prefix)
+
+
+def clear_caches(module_prefix='numqi'):
+    """functools caches in numqi must not leak values between symbolic and real-NumPy executions"""
+    for name, mod in list(sys.modules.items()):
+        if mod is None or not (name == module_prefix or name.startswith(module_prefix + '.')):
+            continue
+        for v in list(getattr(mod, '__dict__', {}).values()):
+            cc = getattr(v, 'cache_clear', None)
+            if callable(cc):
+                try:
+                    cc()
+                except Exception:
+                    pass
 
 
 _MISSING = object()
